@@ -217,3 +217,11 @@ pub fn insert_unit(mode: u8, c: usize, r: usize) {
     inv(&t);
     end_reached!();
 }
+
+/// The same insertion on an array whose buffer is far larger than its contents (capacity 64).
+pub fn insert_tok_bigcap(mode: u8, c: usize, r: usize) {
+    unsafe {
+        CAP_OVERRIDE = 64;
+    }
+    insert_tok(mode, c, r, false);
+}
